@@ -321,6 +321,22 @@ fn exec_region(ctx: &mut Ctx, arena: &Arena, pl: &[u8], with_modules: bool) {
             Out::Panic => ctx.violation("c03/new-panic", || "TagIter::new panicked on an 8-aligned payload".into()),
         }
     });
+    // seam 1b: the same payload with readable memory behind it that continues the chain ([(1,8)][end tag], and an
+    // end-tag image in front): what lies outside the slice is not part of the walk
+    if p + 32 <= arena.len() {
+        arena.fill(arena::FILL_B);
+        let off = arena.len() - 24 - p;
+        if off >= 8 {
+            arena.place_at(off - 8, &[0, 0, 0, 0, 8, 0, 0, 0]);
+        }
+        let base = arena.place_at(off, pl);
+        arena.place_at(off + p, &[1, 0, 0, 0, 8, 0, 0, 0, 0, 0, 0, 0, 8, 0, 0, 0]);
+        let slice: &[u8] = unsafe { std::slice::from_raw_parts(base, p) };
+        match ctx.call("TagIter::new (interior)", || TagIter::new(slice)) {
+            Out::Val(it) => full_walk(ctx, it, pl, base as usize, &items, refuse, Seam::Raw),
+            Out::Panic => ctx.violation("c03/new-panic", || "TagIter::new panicked on an 8-aligned payload".into()),
+        }
+    }
     // seam 2: through BootInformation::load when the payload ends in an end tag
     let ends_in_end_tag = p >= 8 && rd32(pl, p - 8) == 0 && rd32(pl, p - 4) == 8;
     if ends_in_end_tag {
@@ -501,7 +517,7 @@ fn run(ctx: &mut Ctx) {
     let quick = ctx.quick();
     let arena = Arena::new(2);
     let max_p = if quick { 32 } else if ctx.dev_profile() { 40 } else { 48 };
-    ctx.bound("walk", format!("payload lengths 0,8,..,{}; at every offset the reference walk reaches: type in {{1,0,3,0x1337,0x10003}} x size in 0..=P+17 + {{0x7FFFFFFF,0xFFFFFFF9,0xFFFFFFFF}} (every tiling and every way of failing to tile); marker payload bytes; TagIter::new on the raw payload and, when the last 8 bytes are an end tag, BootInformation::load + tags() + module_tags(); region flush against a guard page, fills A/B", max_p));
+    ctx.bound("walk", format!("payload lengths 0,8,..,{}; at every offset the reference walk reaches: type in {{1,0,3,0x1337,0x10003}} x size in 0..=P+17 + {{0x7FFFFFFF,0xFFFFFFF9,0xFFFFFFFF}} (every tiling and every way of failing to tile); marker payload bytes; TagIter::new on the raw payload and, when the last 8 bytes are an end tag, BootInformation::load + tags() + module_tags(); region flush against a guard page, fills A/B, and once more 24 bytes in front of it with a well-formed continuation of the chain behind the slice and an end-tag image in front", max_p));
     let mut p = 0;
     while p <= max_p {
         let alpha = sizes(p);
